@@ -91,6 +91,10 @@ func (this *OneDimensionalCodeWriter) Encode(
 // onedWriter_renderResult @return a byte array of horizontal pixels (0 = white, 1 = black)
 func onedWriter_renderResult(code []bool, width, height, sidesMargin int) (*gozxing.BitMatrix, error) {
 	inputWidth := len(code)
+	if sidesMargin < 0 || inputWidth == 0 {
+		return nil, gozxing.NewWriterException(
+			"IllegalArgumentException: invalid margin %d for %d modules", sidesMargin, inputWidth)
+	}
 	// Add quiet zone on both sides.
 	fullWidth := inputWidth + sidesMargin
 	outputWidth := max(width, fullWidth)
